@@ -249,50 +249,75 @@ Definition str_to_num (x : str) : fl :=
 (** ** Doubles to decimal strings: fewest significant digits that read back,
     closest to the value among those; plain notation (no exponent). *)
 
-(** number of decimal digits of a positive integer, by fuel *)
-Fixpoint ndigits_fuel (fuel : nat) (n : Z) : Z :=
-  match fuel with
-  | O => 0
-  | S f => if Z.ltb n 10 then 1 else 1 + ndigits_fuel f (n / 10)
-  end.
+(** number of decimal digits of a positive integer: 1233/4096 is just below
+    log10 2, so the estimate is floor(log10 n) or one less *)
+Definition ndigits (n : Z) : Z :=
+  let est := (Z.log2 n * 1233) / 4096 in
+  if Z.leb (10 ^ (est + 1)) n then est + 2 else est + 1.
 
-Definition ndigits (n : Z) : Z := ndigits_fuel (S (Z.to_nat (Z.log2 n))) n.
-
-(** the exact decimal: x = D * 10^(-sc), sc >= 0 *)
-Definition exact_decimal (m : positive) (e : Z) : Z * Z :=
-  if Z.leb 0 e then (Zpos m * 2 ^ e, 0) else (Zpos m * 5 ^ (- e), - e).
+(** A decimal prefix of the exact value m * 2^e: (D, sticky, t) with
+    D * 10^t <= m * 2^e < (D + 1) * 10^t, sticky iff the left inequality is strict,
+    and D has at least 19 digits unless the value is exact with fewer. *)
+Definition decimal_prefix (m : positive) (e : Z) : Z * bool * Z :=
+  if Z.leb 0 e then
+    let N := Zpos m * 2 ^ e in
+    let drop := Z.max 0 (ndigits N - 19) in
+    let '(q, r) := Z.div_eucl N (10 ^ drop) in
+    (q, negb (Z.eqb r 0), drop)
+  else
+    let sh := - e in
+    let k := 19 - ((Z.log2 (Zpos m) - sh) * 1233) / 4096 in
+    let N := Zpos m * 10 ^ k in
+    (Z.shiftr N sh, negb (Z.eqb (Z.land N (Z.ones sh)) 0), - k).
 
 (** value c * 10^t as a double *)
 Definition f_of_scaled (c t : Z) : fl := f_of_decimal false c (- t).
 
-(** Try [n] significant digits. Returns the chosen (c, t) with value c*10^t. *)
-Definition try_digits (x : fl) (D sc nd n : Z) : option (Z * Z) :=
-  let sh := nd - n in                       (* digits dropped *)
-  if Z.leb sh 0 then Some (D, - sc)
+(** Does the decimal c * 10^t round to the double m * 2^e ? Exact integer
+    comparison with the midpoints to the neighbouring doubles (closed when the
+    mantissa is even: round-half-even). Equivalent to reading the numeral back
+    with [f_of_decimal], without the long division. *)
+Definition in_interval (c t : Z) (m : positive) (e : Z) : bool :=
+  let boundary := Pos.eqb m 4503599627370496 && Z.ltb (-1074) e in
+  let lowM := 4 * Zpos m - (if boundary then 1 else 2) in
+  let highM := 4 * Zpos m + 2 in
+  let b := e - 2 in
+  let L := c * (if Z.leb 0 t then 10 ^ t else 1) * (if Z.ltb b 0 then 2 ^ (- b) else 1) in
+  let sR := (if Z.leb 0 b then 2 ^ b else 1) * (if Z.ltb t 0 then 10 ^ (- t) else 1) in
+  if Z.even (Zpos m)
+  then Z.leb (lowM * sR) L && Z.leb L (highM * sR)
+  else Z.ltb (lowM * sR) L && Z.ltb L (highM * sR).
+
+(** Try [n] significant digits on the 19-digit prefix D19 of the exact decimal
+    (sticky: digits were dropped to get D19). Returns the chosen (c, t), value c*10^t. *)
+Definition try_digits (m : positive) (e : Z) (D19 : Z) (sticky : bool) (t19 nd19 n : Z) : option (Z * Z) :=
+  let sh := nd19 - n in                       (* digits of D19 dropped *)
+  if Z.leb sh 0 then (if sticky then None else Some (D19, t19))
   else
     let p := 10 ^ sh in
-    let lo := D / p in
+    let lo := D19 / p in
     let hi := lo + 1 in
-    let t := sh - sc in
-    let oklo := fsame (f_of_scaled lo t) x in
-    let okhi := fsame (f_of_scaled hi t) x in
-    let r := D mod p in
+    let t := sh + t19 in
+    let oklo := in_interval lo t m e in
+    let okhi := in_interval hi t m e in
+    let r := D19 mod p in
     if oklo && okhi then
       match Z.compare (2 * r) p with
       | Lt => Some (lo, t)
       | Gt => Some (hi, t)
-      | Eq => if Z.even lo then Some (lo, t) else Some (hi, t)
+      | Eq => if sticky then Some (hi, t) else if Z.even lo then Some (lo, t) else Some (hi, t)
       end
     else if oklo then Some (lo, t)
     else if okhi then Some (hi, t)
     else None.
 
-Fixpoint shortest_fuel (fuel : nat) (x : fl) (D sc nd n : Z) : Z * Z :=
+Fixpoint shortest_fuel (fuel : nat) (m : positive) (e : Z) (D19 : Z) (sticky : bool) (t19 nd19 n : Z)
+         (dflt : Z * Z) : Z * Z :=
   match fuel with
-  | O => (D, - sc)
-  | S f => match try_digits x D sc nd n with
+  | O => dflt
+  | S f => match try_digits m e D19 sticky t19 nd19 n with
            | Some r => r
-           | None => shortest_fuel f x D sc nd (n + 1)
+           | None => shortest_fuel f m e D19 sticky t19 nd19 (n + 1) dflt
            end
   end.
 
@@ -331,9 +356,8 @@ Definition num_to_str (x : fl) : str :=
   | S754_infinity true => lit "-Infinity"
   | S754_zero _ => lit "0"
   | S754_finite sg m e =>
-      let '(D, sc) := exact_decimal m e in
-      let nd := ndigits D in
-      let '(c, t) := shortest_fuel 18 (S754_finite false m e) D sc nd 1 in
+      let '(D19, sticky, t19) := decimal_prefix m e in
+      let '(c, t) := shortest_fuel 24 m e D19 sticky t19 (ndigits D19) 1 (D19, t19) in
       let '(c', t') := strip_zeros (Z.to_nat (- t)) c t in
       (if sg then [45%N] else []) ++ render_scaled c' t'
   end.
